@@ -4,7 +4,7 @@ package main
 //
 //   pred <k> (<colty> <value>)*k <tree>     -> same <outcome> | diff <native outcome> <plugin outcome> | rejected <native outcome>
 //                                              | untyped | jsonerr:<class>
-//   tree := C <ty> <value> | V <idx> | A <n> tree… | O <n> tree… | F <namehex> <n> tree…
+//   tree := C <ty> <value> | V <idx> | A <n> tree… | O <n> tree… | U <n> tree… (tuple expression) | F <namehex> <n> tree…
 //
 // The tree is typed by the REAL typechecker (logical.FunctionExpression.Typecheck picks the descriptors), then
 //   native side : Materialize in the record's variable context, Evaluate on the record;
@@ -81,6 +81,20 @@ func parsePredTree(toks []string, cols []octosql.Type) (physical.Expression, []s
 			return physical.Expression{Type: boolType26(args), ExpressionType: physical.ExpressionTypeAnd, And: &physical.And{Arguments: args}}, r
 		}
 		return physical.Expression{Type: boolType26(args), ExpressionType: physical.ExpressionTypeOr, Or: &physical.Or{Arguments: args}}, r
+	case "U":
+		k, err := strconv.Atoi(toks[1])
+		if err != nil {
+			panic(err)
+		}
+		r := toks[2:]
+		args := make([]physical.Expression, k)
+		ts := make([]octosql.Type, k)
+		for i := 0; i < k; i++ {
+			args[i], r = parsePredTree(r, cols)
+			ts[i] = args[i].Type
+		}
+		return physical.Expression{Type: octosql.Type{TypeID: octosql.TypeIDTuple, Tuple: struct{ Elements []octosql.Type }{Elements: ts}},
+			ExpressionType: physical.ExpressionTypeTuple, Tuple: &physical.Tuple{Arguments: args}}, r
 	case "F":
 		nameb, err := hex.DecodeString(toks[1])
 		if err != nil {
@@ -153,6 +167,147 @@ func driveC26pred(toks []string) string {
 		return "same " + native
 	}
 	return "diff " + native + " " + plugin
+}
+
+// ---------- the `tree` op: which descriptor every call of a predicate has after the trip
+//
+//   tree <T>      -> fns <i|none>… ok=<0|1>          (calls in pre-order)
+//   T := L <ty> | N <kind> <ty> <k> T… | F <ty> <namehex> <idx|-> <k> T…
+//   kind: A and, O or, K coalesce, U tuple, S type assertion (target = ty), C cast (target TypeID = that of ty)
+// The expression is built literally: call nodes get descriptor <idx> of FunctionMap()[name] (`-`: no such function, empty descriptor).
+
+func treeTokens(e physical.Expression) []string {
+	many := func(kind string, args []physical.Expression) []string {
+		out := []string{"N", kind, EncodeType(e.Type), strconv.Itoa(len(args))}
+		for _, a := range args {
+			out = append(out, treeTokens(a)...)
+		}
+		return out
+	}
+	switch e.ExpressionType {
+	case physical.ExpressionTypeVariable, physical.ExpressionTypeConstant:
+		return []string{"L", EncodeType(e.Type)}
+	case physical.ExpressionTypeAnd:
+		return many("A", e.And.Arguments)
+	case physical.ExpressionTypeOr:
+		return many("O", e.Or.Arguments)
+	case physical.ExpressionTypeCoalesce:
+		return many("K", e.Coalesce.Arguments)
+	case physical.ExpressionTypeTuple:
+		return many("U", e.Tuple.Arguments)
+	case physical.ExpressionTypeTypeAssertion:
+		return append([]string{"N", "S", EncodeType(e.TypeAssertion.TargetType), "1"}, treeTokens(e.TypeAssertion.Expression)...)
+	case physical.ExpressionTypeTypeCast:
+		return many("C", []physical.Expression{e.TypeCast.Expression})
+	case physical.ExpressionTypeFunctionCall:
+		idx := descIndex26(e.FunctionCall.Name, e.FunctionCall.FunctionDescriptor)
+		if idx == "none" {
+			idx = "-"
+		}
+		out := []string{"F", EncodeType(e.Type), hex.EncodeToString([]byte(e.FunctionCall.Name)), idx, strconv.Itoa(len(e.FunctionCall.Arguments))}
+		for _, a := range e.FunctionCall.Arguments {
+			out = append(out, treeTokens(a)...)
+		}
+		return out
+	}
+	panic("c26: expression kind not supported in tree ops")
+}
+
+func parseTree26(toks []string) (physical.Expression, []string) {
+	switch toks[0] {
+	case "L":
+		ty, r := ParseType(toks[1:])
+		return physical.Expression{Type: ty, ExpressionType: physical.ExpressionTypeVariable, Variable: &physical.Variable{Name: "v", IsLevel0: true}}, r
+	case "N":
+		kind := toks[1]
+		ty, r := ParseType(toks[2:])
+		k, err := strconv.Atoi(r[0])
+		if err != nil {
+			panic(err)
+		}
+		r = r[1:]
+		args := make([]physical.Expression, k)
+		for i := 0; i < k; i++ {
+			args[i], r = parseTree26(r)
+		}
+		switch kind {
+		case "A":
+			return physical.Expression{Type: ty, ExpressionType: physical.ExpressionTypeAnd, And: &physical.And{Arguments: args}}, r
+		case "O":
+			return physical.Expression{Type: ty, ExpressionType: physical.ExpressionTypeOr, Or: &physical.Or{Arguments: args}}, r
+		case "K":
+			return physical.Expression{Type: ty, ExpressionType: physical.ExpressionTypeCoalesce, Coalesce: &physical.Coalesce{Arguments: args}}, r
+		case "U":
+			return physical.Expression{Type: ty, ExpressionType: physical.ExpressionTypeTuple, Tuple: &physical.Tuple{Arguments: args}}, r
+		case "S":
+			return physical.Expression{Type: ty, ExpressionType: physical.ExpressionTypeTypeAssertion, TypeAssertion: &physical.TypeAssertion{Expression: args[0], TargetType: ty}}, r
+		case "C":
+			return physical.Expression{Type: ty, ExpressionType: physical.ExpressionTypeTypeCast, TypeCast: &physical.TypeCast{Expression: args[0], TargetTypeID: ty.TypeID}}, r
+		}
+		panic("c26: bad node kind " + kind)
+	case "F":
+		ty, r := ParseType(toks[1:])
+		nameb, err := hex.DecodeString(r[0])
+		if err != nil {
+			panic(err)
+		}
+		var d physical.FunctionDescriptor
+		if r[1] != "-" {
+			idx, err := strconv.Atoi(r[1])
+			if err != nil {
+				panic(err)
+			}
+			d = funcs26()[string(nameb)].Descriptors[idx]
+		}
+		k, err := strconv.Atoi(r[2])
+		if err != nil {
+			panic(err)
+		}
+		r = r[3:]
+		args := make([]physical.Expression, k)
+		for i := 0; i < k; i++ {
+			args[i], r = parseTree26(r)
+		}
+		return physical.Expression{Type: ty, ExpressionType: physical.ExpressionTypeFunctionCall,
+			FunctionCall: &physical.FunctionCall{Name: string(nameb), Arguments: args, FunctionDescriptor: d}}, r
+	}
+	panic("c26: bad tree token " + toks[0])
+}
+
+func callFns26(e physical.Expression, out *[]string) {
+	each := func(args []physical.Expression) {
+		for _, a := range args {
+			callFns26(a, out)
+		}
+	}
+	switch e.ExpressionType {
+	case physical.ExpressionTypeAnd:
+		each(e.And.Arguments)
+	case physical.ExpressionTypeOr:
+		each(e.Or.Arguments)
+	case physical.ExpressionTypeCoalesce:
+		each(e.Coalesce.Arguments)
+	case physical.ExpressionTypeTuple:
+		each(e.Tuple.Arguments)
+	case physical.ExpressionTypeTypeAssertion:
+		callFns26(e.TypeAssertion.Expression, out)
+	case physical.ExpressionTypeTypeCast:
+		callFns26(e.TypeCast.Expression, out)
+	case physical.ExpressionTypeFunctionCall:
+		*out = append(*out, descIndex26(e.FunctionCall.Name, e.FunctionCall.FunctionDescriptor))
+		each(e.FunctionCall.Arguments)
+	}
+}
+
+func driveC26tree(toks []string) string {
+	e, _ := parseTree26(toks[1:])
+	out, ok, err := jsonTripExpr(e)
+	if err != nil {
+		return "jsonerr:" + jsonErrClass(err)[4:]
+	}
+	var fns []string
+	callFns26(out, &fns)
+	return strings.TrimSpace("fns " + strings.Join(fns, " ") + " ok=" + b01(ok))
 }
 
 // ---------- generator of well-typed predicates
@@ -251,6 +406,19 @@ func (p *predGen) call(name string, args []gexpr) (gexpr, bool) {
 	return gexpr{toks: toks, e: e}, true
 }
 
+func (p *predGen) tupleExpr(elems []gexpr) gexpr {
+	toks := []string{"U", strconv.Itoa(len(elems))}
+	args := make([]physical.Expression, len(elems))
+	ts := make([]octosql.Type, len(elems))
+	for i := range elems {
+		toks = append(toks, elems[i].toks...)
+		args[i] = elems[i].e
+		ts[i] = elems[i].e.Type
+	}
+	return gexpr{toks: toks, e: physical.Expression{Type: octosql.Type{TypeID: octosql.TypeIDTuple, Tuple: struct{ Elements []octosql.Type }{Elements: ts}},
+		ExpressionType: physical.ExpressionTypeTuple, Tuple: &physical.Tuple{Arguments: args}}}
+}
+
 var c26ScalarTypes = []octosql.Type{octosql.Int, octosql.Float, octosql.String, octosql.Boolean, octosql.Time, octosql.Duration}
 
 // ofType: an expression whose static type is (a subtype of) t
@@ -323,7 +491,16 @@ func (p *predGen) callDescriptor(name string, di int, depth int) (gexpr, bool) {
 		if di == 0 {
 			coll = listOf(t)
 		} else {
-			coll = tupleOf(t, 1+g.Intn(3))
+			n := 1 + g.Intn(3)
+			if g.Chance(2, 3) {
+				// the way SQL writes it: a tuple *expression* `(e1, e2, …)`
+				elems := make([]gexpr, n)
+				for i := range elems {
+					elems[i] = p.ofType(t, depth-1)
+				}
+				return p.call(name, []gexpr{p.ofType(t, depth), p.tupleExpr(elems)})
+			}
+			coll = tupleOf(t, n)
 		}
 		return p.call(name, []gexpr{p.ofType(t, depth), p.ofType(coll, depth)})
 	case "len":
@@ -347,11 +524,18 @@ func (p *predGen) boolean(depth int) gexpr {
 	g := p.g
 	if depth > 0 && g.Chance(1, 4) {
 		n := 2 + g.Intn(2)
-		toks := []string{Pick(g, []string{"A", "O"}), strconv.Itoa(n)}
+		kind := Pick(g, []string{"A", "O"})
+		toks := []string{kind, strconv.Itoa(n)}
+		args := make([]physical.Expression, n)
 		for i := 0; i < n; i++ {
-			toks = append(toks, p.boolean(depth-1).toks...)
+			x := p.boolean(depth - 1)
+			toks = append(toks, x.toks...)
+			args[i] = x.e
 		}
-		return gexpr{toks: toks}
+		if kind == "A" {
+			return gexpr{toks: toks, e: physical.Expression{Type: boolType26(args), ExpressionType: physical.ExpressionTypeAnd, And: &physical.And{Arguments: args}}}
+		}
+		return gexpr{toks: toks, e: physical.Expression{Type: boolType26(args), ExpressionType: physical.ExpressionTypeOr, Or: &physical.Or{Arguments: args}}}
 	}
 	for try := 0; try < 20; try++ {
 		name := Pick(g, []string{"=", "!=", "<", "<=", ">", ">=", "in", "not in", "like", "~", "~*", "is null", "is not null", "not", "in", "not in"})
@@ -420,6 +604,28 @@ func genC26pred(g *Gen, tier string, w *bufio.Writer) {
 	// random boolean predicates
 	for i := 0; i < 700*scale; i++ {
 		p := newPredGen(g)
-		fmt.Fprintln(w, p.line(p.boolean(3), g))
+		x := p.boolean(3)
+		fmt.Fprintln(w, p.line(x, g))
+		if i%2 == 0 {
+			fmt.Fprintln(w, "tree "+strings.Join(treeTokens(x.e), " "))
+		}
 	}
+	// trees around calls the typechecker resolves only in its second pass (type assertions inserted), unknown functions, calls without arguments
+	for i := 0; i < 200*scale; i++ {
+		name := Pick(g, c26FunctionNames())
+		n := g.Intn(3)
+		ts := make([]octosql.Type, n)
+		for j := range ts {
+			ts[j], _ = ParseType(strings.Fields(Pick(g, c26ArgPool)))
+		}
+		var e physical.Expression
+		if safe(func() string { e = typecheck26(name, ts); return "ok" }) == "panic" {
+			continue
+		}
+		wrap := physical.Expression{Type: octosql.Boolean, ExpressionType: physical.ExpressionTypeOr, Or: &physical.Or{Arguments: []physical.Expression{
+			{Type: octosql.Boolean, ExpressionType: physical.ExpressionTypeVariable, Variable: &physical.Variable{Name: "v", IsLevel0: true}}, e}}}
+		fmt.Fprintln(w, "tree "+strings.Join(treeTokens(wrap), " "))
+	}
+	fmt.Fprintln(w, "tree N A Bool 2 F Bool 6e6f5f73756368 - 1 L Int F Bool 696e 1 2 L Int L Tuple2 Int Int")
+	fmt.Fprintln(w, "tree F Bool 696e 1 2 L Int L Tuple2 Int Int")
 }
